@@ -39,6 +39,19 @@ def insitu_matrix(ctx):
         dict(label="film/epsilon(r, t) returning numpy scalars of mixed type/gamma=1", dev="film", gamma=1.0, field=0.8, epsilon_ramp=0.15,
              epsilon_form="numpy-scalar", solve_time=0.25),
         dict(label="bar/epsilon(r) static, int and float", dev="bar", current=4.0, field=0.3, epsilon_ramp=1.0, epsilon_form="static-int-mixed", solve_time=0.2),
+        # the simulated device is DERIVED from the constructed one (non-default gamma, u; conductivity unset and set)
+        dict(label="route/device.copy()/Layer(gamma=1, u=2.5)", dev="bar", gamma=1.0, u=2.5, route="copy", current=6.0, field=0.4, solve_time=0.15),
+        dict(label="route/device.rotate(30)/Layer(gamma=0, u=1)", dev="tee", gamma=0.0, u=1.0, route="rotate", current=6.0, field=0.3, solve_time=0.15),
+        dict(label="route/device.scale(-1, 1)/Layer(gamma=2, u=1)/conductivity set", dev="bar", gamma=2.0, u=1.0, conductivity=4.0, route="scale", current=6.0,
+             field=0.4, solve_time=0.15),
+        dict(label="route/device.translate(not in place)/Layer(gamma=1, u=3)", dev="barhole", gamma=1.0, u=3.0, route="translate", current=4.0, field=0.3,
+             solve_time=0.15),
+        dict(label="route/Device.from_hdf5(to_hdf5)/Layer(gamma=1, u=2.5)/conductivity unset", dev="bar", gamma=1.0, u=2.5, route="hdf5", current=6.0, field=0.4,
+             solve_time=0.15),
+        dict(label="route/Device.from_hdf5(to_hdf5)/Layer(gamma=0, u=1)/conductivity set", dev="tee", gamma=0.0, u=1.0, conductivity=4.0, route="hdf5", current=6.0,
+             field=0.3, solve_time=0.15),
+        dict(label="route/Solution.from_hdf5(path).device/Layer(gamma=2, u=1)", dev="bar", gamma=2.0, u=1.0, route="solution-device", current=6.0, field=0.4,
+             solve_time=0.15),
         # sweeps that build all their Layers/Devices first: other (gamma, u) are created AFTER this run's layer and BEFORE its solve
         dict(label="bar/Layer(gamma=10)/decoy layers (gamma=0,u=1),(gamma=1,u=2.5) built before the solve", dev="bar", current=6.0, field=0.4, solve_time=0.25,
              decoys=[(0.0, 1.0), (1.0, 2.5)]),
@@ -90,6 +103,15 @@ def insitu(ctx):
     ctx.cov["insitu"]["runs_with_decoy_layers"] = len(dec)
     if len(dec) < 2:
         raise core.MachineryFailure(f"C02 in situ: fewer than 2 runs with decoy Layers of other (gamma, u) built before the solve: {dec}")
+    routes = {}
+    for r in res:
+        if r.get("route") and r["n_updates_on_derived"] > 0 and (r["requested_gamma"] != 10.0 or r["requested_u"] != 5.79):
+            routes.setdefault(r["route"], []).append(dict(gamma=r["requested_gamma"], u=r["requested_u"], conductivity_set=r["conductivity_set"],
+                                                          updates=r["n_updates_on_derived"]))
+    ctx.cov["insitu"]["derived_device_routes"] = routes
+    missing = {"copy", "rotate", "scale", "translate", "hdf5", "solution-device"} - set(routes)
+    if missing or not any(x["conductivity_set"] for x in routes.get("hdf5", [])) or not any(not x["conductivity_set"] for x in routes.get("hdf5", [])):
+        raise core.MachineryFailure(f"C02 in situ: derived-device routes not exercised with non-default gamma/u: missing {sorted(missing)}; {routes}")
     if retried_mu < 3:
         raise core.MachineryFailure(f"C02 in situ: only {retried_mu} retried answered updates with mu != 0 (need >= 3)")
     if "second-solve" not in phases or "seeded" not in phases:
